@@ -173,17 +173,38 @@ func ActorCtx(ctx context.Context, actor string) context.Context {
 	return metadata.AppendToOutgoingContext(sqlwrap.WithActor(ctx, actor), "verif-actor", actor)
 }
 
-func actorFromMD(ctx context.Context) context.Context {
+// serverCancels holds, per actor, the cancel function of the context of the
+// request handler currently running for it, so that a fault driver can cancel
+// a request SERVER-side at an exact database interaction (a client-side cancel
+// reaches the handler asynchronously).
+var serverCancels sync.Map
+
+// CancelServerRequest cancels the handler context of the actor's current
+// request; false if none is running.
+func CancelServerRequest(actor string) bool {
+	if c, ok := serverCancels.Load(actor); ok {
+		c.(context.CancelFunc)()
+		return true
+	}
+	return false
+}
+
+func actorFromMD(ctx context.Context) (context.Context, func()) {
 	if md, ok := metadata.FromIncomingContext(ctx); ok {
 		if v := md.Get("verif-actor"); len(v) > 0 {
-			return sqlwrap.WithActor(ctx, v[len(v)-1])
+			a := v[len(v)-1]
+			cctx, cancel := context.WithCancel(sqlwrap.WithActor(ctx, a))
+			serverCancels.Store(a, cancel)
+			return cctx, func() { serverCancels.Delete(a); cancel() }
 		}
 	}
-	return ctx
+	return ctx, func() {}
 }
 
 func actorUnary(ctx context.Context, req any, _ *grpc.UnaryServerInfo, h grpc.UnaryHandler) (any, error) {
-	return h(actorFromMD(ctx), req)
+	c, done := actorFromMD(ctx)
+	defer done()
+	return h(c, req)
 }
 
 type actorStreamWrap struct {
@@ -194,7 +215,9 @@ type actorStreamWrap struct {
 func (s *actorStreamWrap) Context() context.Context { return s.ctx }
 
 func actorStream(srv any, ss grpc.ServerStream, _ *grpc.StreamServerInfo, h grpc.StreamHandler) error {
-	return h(srv, &actorStreamWrap{ServerStream: ss, ctx: actorFromMD(ss.Context())})
+	c, done := actorFromMD(ss.Context())
+	defer done()
+	return h(srv, &actorStreamWrap{ServerStream: ss, ctx: c})
 }
 
 func (w *World) Close() {
